@@ -1,7 +1,7 @@
 (* C15 — three-way merge (kyaml merge3 on the generic walker): property theorems only.
    Model: Yaml/Walk.v (the walker shared with C04) + Yaml/Merge3.v (Visitor). *)
 From KV Require Import Yaml.Walk Yaml.WalkProofs Yaml.WalkFields Yaml.Merge2 Yaml.Merge2Frame
-     Yaml.Merge3 Yaml.Merge3Proofs Yaml.Merge3Examples.
+     Yaml.Merge3 Yaml.Merge3Proofs Yaml.Merge3Examples Yaml.WalkGenProofs Gen.WalkTables.
 
 (* merge3.Merge at the canonical fuel never runs out of fuel, for every schema, option set and triple. *)
 Theorem C15_no_diverge :
@@ -92,3 +92,17 @@ Theorem C15_keyed_list_comes_back_refuted :
   m3 l1_l kl_o kl_o = Ok (Some (Map [("a"%string, i1); ("f"%string, Seq [])])).
 Proof. exact keyed_list_comes_back_empty. Qed.
 Print Assumptions C15_keyed_list_comes_back_refuted.
+
+(* ---------- obligations over the tables regenerated from /repo (Gen/WalkTables.v) ---------- *)
+
+(* the model reads dest / original / updated at the source's Sources indexes *)
+Theorem Gen_C15_source_indexes :
+  gen_source_indexes = [("DestIndex", 0); ("OriginIndex", 1); ("UpdatedIndex", 2)]%string /\
+  (forall d o u t, dest_of (d :: o :: u :: t) = d /\ origin_of (d :: o :: u :: t) = o /\ updated_of (d :: o :: u :: t) = u).
+Proof. exact gen_source_indexes_ok. Qed.
+Print Assumptions Gen_C15_source_indexes.
+
+(* the witnesses infer merge keys from the source's AssociativeSequenceKeys *)
+Theorem Gen_C15_assoc_keys : o_assoc_keys iopts = gen_assoc_keys.
+Proof. exact (proj2 (proj2 gen_assoc_keys_ok)). Qed.
+Print Assumptions Gen_C15_assoc_keys.
